@@ -102,8 +102,17 @@ fn main() {
         std::process::exit(3);
     };
 
-    for idx in start..start.saturating_add(count) {
-        runner::run_case(&mut ctx, idx, |c| case_fn(c, idx));
+    // `--param reverse=1`: the same cases, last one first - a process whose history differs from that of its siblings
+    // (cross-process monitors: state that the FIRST calculation of a process leaves behind for all later ones)
+    let end = start.saturating_add(count);
+    if ctx.param_u64("reverse", 0) == 1 {
+        for idx in (start..end).rev() {
+            runner::run_case(&mut ctx, idx, |c| case_fn(c, idx));
+        }
+    } else {
+        for idx in start..end {
+            runner::run_case(&mut ctx, idx, |c| case_fn(c, idx));
+        }
     }
     ctx.finish();
 }
